@@ -73,7 +73,7 @@ MORE = {
  "C05": dict(text="; a snapshot read and is_empty() account for every push that completed before they began (no clear involved); values of one pusher appear in push order within a block",
              note="block size 2; crossbeam-epoch trusted; quiescence waits as awaits; values are tags without destructors; quick tier: 5 shapes (race freedom on two of them), thorough: 10 shapes, <=3 pushes / 2 pushers / 2 clears"),
  "C06": dict(text="; equal keys hash alike on the compiled code (Kani: two labels with one name in either order; with_extra_labels on a hashed key)"),
- "C07": dict(text="; the value printed for a counter / gauge series is the stored value and reads back as the same f64 for every bit pattern (render at character level, number tokens carry value and type; float/int casts in the FP theory); a summary series keeps its full _count across any quiet time and upkeep (recorder-level integration encoding: real builder, Recency, distribution map, RollingSummary)",
+ "C07": dict(text="; the value printed for a counter / gauge series is the stored value and reads back as the same f64 for every bit pattern (render at character level, number tokens carry value and type; float/int casts in the FP theory); a summary series keeps its full _count across any quiet time and upkeep (recorder-level integration encoding: real builder, Recency, distribution map, RollingSummary) and for samples handed over in any timestamp order; the drain's lock discipline counterexample is replayed by a position search (run_upkeep passes p yield points, then render runs)",
              note="conservation chain up to the Snapshot that render() prints; sequential histories (record-during-render: C05/C19-style interference is not encoded here); registry, bucket, key_to_parts and the DDSketch abstract"),
  "C08": dict(text="; key_to_parts on keyed containers incl. label-less keys with global labels; the value on a counter / gauge sample line is the stored value in a form that reads back exactly",
              note="bounded string lengths (names <= 3-4, values <= 4-5 characters, 1-character label parts in key_to_parts); one family with one label set per render scenario; Display of integers / floats trusted (exact / shortest round-trip)"),
@@ -84,16 +84,16 @@ MORE = {
              note="<= 2 clients, <= 7 batches; mio / crossbeam-channel / prost by their documented behaviour; the emitting side (Handle::push_metric racing with should_send) and client sockets becoming readable are outside the bound"),
  "C12": dict(text="; usage histories from Recency::new (any mask, timeout, 0..2 updates and any time step before each of 3-5 observations over 1-2 kinds, re-registration after a drop) against the property's reference; recorder level (real builder + Recency + distribution map, with and without global labels): dropped iff idle longer than the timeout, kept with full value otherwise, fresh series after a drop",
              note="std HashMap as keyed container of concrete size; clock = scenario time (integers); registry abstract at recorder level; decision tables from an arbitrary internal state are skipped on a tree with another bookkeeping layout (the histories do not depend on it)"),
- "C13": dict(text="; E3: Fanout[r1,r2] <- PrefixLayer <- PrefixLayer built by the real constructors, describe + register twice + update through the second handle reach each recorder exactly once with both prefixes (names that already begin with a prefix included); router / filter through their real constructors, filter by pattern containment with ASCII case folding"),
+ "C13": dict(text="; E3: Fanout[r1,r2] <- PrefixLayer <- PrefixLayer built by the real constructors, describe + register twice + update through the second handle reach each recorder exactly once with both prefixes (names that already begin with a prefix included); router (two and three routes; radix_trie get_ancestor = longest stored key that is a prefix, get_raw_ancestor at nibble level with branch nodes) / filter through their real constructors, filter by pattern containment with ASCII case folding, each setter on its own between two layer() calls"),
  "C14": dict(text="; releases with a layout that does not match the allocation (CBMC's rust_dealloc / free checks) are confirmed natively by a checking global allocator; values sharing a start address but not a length compare unequal"),
- "C15": dict(text="; rolling summary: for 2-4 samples with any non-decreasing timestamps, any bucket duration and 1-3 buckets, the snapshot (sketch = multiset of samples) contains no sample older than the window, every sample well inside it, and the total count is the number of samples; recorder level: _count survives any quiet time and upkeep",
-             note="<=3 bounds, <=3 samples (Kani); two overrides with patterns of 1-2 characters; out-of-order timestamps within a batch and DDSketch accuracy are outside the claim"),
+ "C15": dict(text="; rolling summary: for 2-4 samples with any non-decreasing timestamps, any bucket duration and 1-3 buckets, the snapshot (sketch = multiset of samples) contains no sample older than the window, every sample well inside it, and the total count is the number of samples; recorder level: _count survives any quiet time and upkeep; for samples in any timestamp order (a drain hands the newest storage block over first) the cumulative count is the number of samples and add() terminates; precedence counterexamples are replayed through PrometheusBuilder::set_buckets_for_metric",
+             note="<=3 bounds, <=3 samples (Kani); two overrides with patterns of 1-2 ASCII name characters (what the builder's sanitisation lets through); which samples the quantiles cover is specified for samples in time order only; DDSketch accuracy is outside the claim"),
  "C16": dict(text="; the sample rate does not change while the drain is iterated; a value pushed while a drain is held is yielded by the next drain, once; E3 schedules (1-2 pushers || consume): only this cycle's values, none twice, within capacity none lost outside the two recorded mechanisms K9 / K10",
              note="uniformity of rand's random_range and the induction are trusted; capacity <= 2"),
  "C18": dict(text="; the allowlist as the real pipeline (new_http_listener builds the exporter, then check_tcp_allowed) over 1-3 IPv4 networks of any address / prefix length (nested, overlapping, unsorted, host bits) and any loopback peer; the accept loop (serve_tcp's state machine -> spawned task -> handler response) over 2 accepted / failed connections with failing peer_addr(): one answer per accepted connection following the allowlist, the loop never ends",
              note="the membership test is encoded on IPv4 values; IPv6 enters only in the syntax table (a plain address of either family is stored as exactly that host: /32 or /128); hyper's parsing, connections aborted mid-render and concurrency are NOT covered"),
- "C17": dict(text="; span trees end to end: MetricsLayer::on_layer / on_new_span / on_record and TracingContext::register_* -> enhance_key -> with_labels executed over a modelled span registry for 9 (thorough: 13) trees of <= 3 spans (contextual / explicit parent / explicit root, field-less spans, records after a child exists, exited spans) with symbolic, possibly coinciding names, values and filter verdicts: the key reaching the inner recorder carries exactly the metric's labels plus the admitted fields of the current span and those its ancestors had when each descendant was created; the solver's tree is replayed through the real tracing registry, and each scenario's witness inputs are validated natively",
-             note="tracing-subscriber's registry and dispatcher are modelled (span ids, parent links as the registry sets them, one Labels slot per span, the current span); field visiting (value formatting per type), other threads' spans and spans closed while referenced are NOT covered; <= 1 field per span call, <= 2 metric labels"),
+ "C17": dict(text="; span trees end to end: MetricsLayer::on_layer / on_new_span / on_record and TracingContext::register_* -> enhance_key -> with_labels executed over a modelled span registry for 12 (thorough: 16) trees of <= 3 spans (contextual / explicit parent / explicit root, field-less spans, records after a child exists, exited spans) and up to two threads (each with its own current span; a record() through a span handle on another thread; several emissions per tree; thread_local! state of the code under analysis is per thread) with symbolic, possibly coinciding names, values and filter verdicts: the key reaching the inner recorder carries exactly the metric's labels plus the admitted fields of the current span and those its ancestors had when each descendant was created; the solver's tree is replayed through the real tracing registry, and each scenario's witness inputs are validated natively",
+             note="tracing-subscriber's registry and dispatcher are modelled (span ids, parent links as the registry sets them, one Labels slot per span, the current span); field visiting (value formatting per type), concurrent (as opposed to alternating) use by several threads and spans closed while referenced are NOT covered; <= 1 field per span call, <= 2 metric labels"),
  "C19": dict(text="; a value recorded on another thread while a snapshot is in progress (interference at every bucket-operation boundary) appears in exactly one snapshot",
              note="fixed history shapes of <= 7 calls; abstract key identities; registry, IndexMap/HashMap/Mutex by their contracts; the bucket's operations are atomic steps (C05)"),
 }
